@@ -38,6 +38,9 @@ def subst_value(v, var, val):
     return v
 
 
+INEXACT_POOL = [0.1, 3.0, -0.3, 10.0, -1.0, 0.0, 1.0, 1e308, 1e-300, 0.30000000000000004, 2.0, 0.7, -0.0, float('inf')]
+
+
 class CompositionOb(Obligation):
     """eval(Outer(.., Inner(x..), ..)) == eval(Outer(.., Number(v), ..))[v := value of Inner(x..)] whenever Inner evaluates to Ok,
     and Err when Inner is Err"""
@@ -76,6 +79,7 @@ class CompositionOb(Obligation):
             v.render = lambda cz, box=self._vtext: box[0]          # natively the leaf carries the native value of the subexpression
             res['paths'] = len(A) + len(I) + len(B)
             vvar = v.var
+            tried_pool = []
             for pci, oi in I:
                 for pca, oa in A:
                     if e.check(pci, pca) != z3.sat: continue
@@ -103,7 +107,14 @@ class CompositionOb(Obligation):
                         if same is True: res['discharged'] += 1; continue
                         r = e.check(pci, pca, pcb2, b_not(same)) if same is not False else z3.sat
                         if r == z3.unsat: res['discharged'] += 1
-                        elif r == z3.unknown: res['inconclusive'].append('%s: solver unknown' % self.name)
+                        elif r == z3.unknown:
+                            # the solver gave up on the equality (typically a product of two symbolic doubles): look for a witness among boundary / inexact
+                            # operand values on the compiled code; none found = left open, never reported as held
+                            if not tried_pool:
+                                tried_pool.append(1)
+                                c = self.pool_viol(e, runner, sx, xs + [z for k, z in enumerate(zs) if k != self.pos], 'value differs from evaluating the node on the value of the subexpression', profile, res)
+                                if c: res['confirmed'].append(c); continue
+                            res['inconclusive'].append('%s: solver unknown' % self.name)
                         else: res['confirmed'].append(self.viol(e, runner, sx, [pci, pca, pcb2] + ([b_not(same)] if same is not False else []), 'value differs from evaluating the node on the value of the subexpression', profile))
             res['confirmed'] = [c for c in res['confirmed'] if c]
             res['samples'] = [dict(obligation=self.name, outer=self.outer, position=self.pos, inner=self.inner, paths=[len(A), len(I), len(B)])]
@@ -116,9 +127,34 @@ class CompositionOb(Obligation):
         res['fns'] = sorted(e.stats.fns); res['summaries'] = sorted(e.stats.summaries)
         return res
 
+    def pool_viol(self, e, runner, sx, leaves, what, profile, res):
+        import itertools
+        vars_ = [lf.var for lf in leaves if is_sym(lf.var) and not isinstance(lf.var, tuple)]
+        if len(vars_) != len(leaves) or len(vars_) > 3: return None
+        pools = []
+        for v in vars_:
+            if z3.is_fp(v): pools.append([fp_const(x) for x in INEXACT_POOL])
+            elif z3.is_bv(v): pools.append([z3.BitVecVal(x, v.size()) for x in I64_POOL])
+            elif z3.is_int(v): pools.append([z3.IntVal(x) for x in I64_POOL])
+            else: return None
+        n = 0
+        for combo in itertools.product(*pools):
+            n += 1
+            if n > 4000: break
+            s2 = z3.Solver()
+            for v, x in zip(vars_, combo): s2.add(v == x)
+            if s2.check() != z3.sat: continue
+            c = self.viol_model(s2.model(), runner, sx, what, profile)
+            res['replayed'] += 1
+            if c: return c
+        return None
+
     def viol(self, e, runner, sx, conds, what, profile):
         if e.check(*conds) != z3.sat: return None
-        cz = Concretizer(e.solver.model(), runner)
+        return self.viol_model(e.solver.model(), runner, sx, what, profile)
+
+    def viol_model(self, model, runner, sx, what, profile):
+        cz = Concretizer(model, runner)
         try:
             sA = sx(cz); sI = self._sxI(cz)
         except Unsupported:
